@@ -121,18 +121,71 @@ def evalY_full_statement : Prop :=
 
 /-- **Integer constant expressions** — for every expression tree over integer and rune literals of any magnitude,
     `iota`, unary `+ - ^`, the operators `+ - * / % & | ^ &^ << >>`, conversions to the eleven integer types and
-    parentheses, and every value of `iota`: whenever the Go specification accepts the expression, one walk of the
-    interpreter folds it to the same value with the same type (an untyped kind or a basic type), the value being
-    held as a go/constant value while untyped and as a reflect value of the kind once typed. The only side
-    condition besides acceptance by Go is the decidable `noRuneQuo` (no quotient of an untyped rune constant by an
-    untyped integer constant, which the interpreter types `int`). Proved by structural induction
-    (Proofs/C03Main.lean). The converse — what Go rejects is rejected — fails (witnesses below). -/
-theorem evalY_eq_spec_partial (i : Nat) (e : CExpr) (hshape : intShape e = true) (hq : noRuneQuo i e = true)
-    (gv : Spec.GV) (hgo : Spec.evalGo i e = .ok gv) :
-    ∃ n, evalY Expected.C03.facts { iota := i } none e = .ok n ∧ n.ty = gv.ty ∧ Class.absRV n.rv = gv.v := by
-  obtain ⟨n, hn, hinv⟩ := evalY_int_correct { iota := i } rfl rfl e hshape hq gv hgo
+    parentheses, every value of `iota`, **in every first walk** (`env.pass2 = false`: inside or outside a constant
+    declaration, whether or not the package scope already has variables — since 08f21a9 `fixUntyped` no longer
+    indexes `sc.types` for a parenthesised constant, so the former restriction to a non-empty frame is gone): whenever
+    the Go specification accepts the expression, the walk folds it to the same value with the same type (an untyped
+    kind or a basic type), the value being held as a go/constant value while untyped and as a reflect value of the
+    kind once typed. The only side condition besides acceptance by Go is the decidable `noRuneQuo` (no quotient of an
+    untyped rune constant by an untyped integer constant, which the interpreter types `int`, F03-6). Proved by
+    structural induction (Proofs/C03Main.lean). The converse — what Go rejects is rejected — fails in general
+    (witnesses below; it holds where `representableConst` is the only check, see `conv_untyped_exact`). -/
+theorem evalY_eq_spec_env (env : Env) (hp2 : env.pass2 = false) (e : CExpr) (hshape : intShape e = true)
+    (hq : noRuneQuo env.iota e = true) (gv : Spec.GV) (hgo : Spec.evalGo env.iota e = .ok gv) :
+    ∃ n, evalY Expected.C03.facts env none e = .ok n ∧ n.ty = gv.ty ∧ Class.absRV n.rv = gv.v := by
+  obtain ⟨n, hn, hinv⟩ := evalY_int_correct env hp2 e hshape hq gv hgo
   refine ⟨n, hn, hinv.1, ?_⟩
   rcases hinv.shape with ⟨_, _, _, rfl, _, hrv⟩ | ⟨_, _, rfl, _, hrv, _⟩ <;> simp [Class.absRV, hrv]
+
+/-- the instance used by the declaration theorems and by `evalY_full_statement`: `var c = e`, operands, `iota = i` -/
+theorem evalY_eq_spec_partial (i : Nat) (e : CExpr) (hshape : intShape e = true) (hq : noRuneQuo i e = true)
+    (gv : Spec.GV) (hgo : Spec.evalGo i e = .ok gv) :
+    ∃ n, evalY Expected.C03.facts { iota := i } none e = .ok n ∧ n.ty = gv.ty ∧ Class.absRV n.rv = gv.v :=
+  evalY_eq_spec_env { iota := i } rfl e hshape hq gv hgo
+
+/-- non-vacuity of the generalisation: `3 * (1) + int8(2)` in the first walk of the first constant declaration of a
+    package (empty `sc.types`) — a Go panic before 08f21a9 -/
+example : (evalY Expected.C03.facts { iota := 0, inConst := true, noFrame := true } none
+      (.bin .add (.bin .mul (.int 3) (.par (.int 1))) (.conv (.i .int8) (.int 2)))).bind (fun n => .ok (n.rv, n.ty)) =
+    .ok (.r (.i .int8) (.int 5), .t (.i .int8)) := by decide
+
+/-- **The quotient of two integer constants is the integer quotient whatever the context** (repair of F48): for every
+    type `nty` the pre-order pass may have copied onto the node — untyped integer, untyped float (the second walk of
+    `const c = 7/2 + 0.5`), the declared type of `var f float64 = 3/2` or `var v int = (7/2)*2` — and all integers
+    `p`, `q ≠ 0`, `quoConst` folds `p / q` to the truncated integer quotient, as the specification requires of two
+    untyped integer constants; and likewise every other arithmetic operator on two Int-kinded constants. -/
+theorem quo_const_int_any_type (a : Act) (ha : isArith a = true) (nty : Ty) (p q : Int)
+    (hz : ¬ (needsNZ a = true ∧ q = 0)) :
+    foldBinY Expected.C03.facts a nty (.c (.int p)) (.c (.int q)) = .ok (.c (.int (iop a p q))) :=
+  foldBinY_const a ha nty p q hz
+
+/-- **What the repair of F48 removed**: with the switch of `quoConst` on the node type (the code before), the same
+    fold under a pushed-down floating-point or typed integer type was the exact rational quotient — `7/2` was 7/2, then
+    `(7/2)*2` = 7 truncated through the declared type, `var f float64 = 3/2` was 1.5. This is what the model computes
+    for a source in which the repair is reverted (the extractor then emits `rule := .nodeType`). -/
+theorem quo_before_F48_witness :
+    foldBinY { Expected.C03.facts with eval := Expected.C03.evalFactsBeforeF48 } .quo (.t .f64) (.c (.int 3)) (.c (.int 2)) =
+      .ok (.c (.flt ⟨3, 2⟩)) ∧
+    foldBinY { Expected.C03.facts with eval := Expected.C03.evalFactsBeforeF48 } .quo (.t (.i .int)) (.c (.int 7)) (.c (.int 2)) =
+      .ok (.c (.flt ⟨7, 2⟩)) ∧
+    foldBinY { Expected.C03.facts with eval := Expected.C03.evalFactsBeforeF48 } .quo (.u .int) (.c (.int 7)) (.c (.int 2)) =
+      .ok (.c (.int 3)) ∧
+    foldBinY Expected.C03.facts .quo (.t .f64) (.c (.int 3)) (.c (.int 2)) = .ok (.c (.int 1)) := by decide
+
+/-- the regression programs of the repair, model = specification: `var f float64 = 3/2` is 1, `var v int = (7/2)*2`
+    is 6, `var c = (2/3)-(16|17)` is −17, `const c = 7/2 + 0.5` is 3.5 (all three walks), `const c = int8(1) + 7/2`
+    is 4, and a floating-point operand still gives the real quotient (`7/2.0` is 3.5) -/
+example :
+    varDeclY Expected.C03.facts (some .f64) (.bin .quo (.int 3) (.int 2)) = .ok (.flt ⟨1, 1⟩, .f64) ∧
+    Spec.declGo 0 (some .f64) (.bin .quo (.int 3) (.int 2)) = .ok (.flt ⟨1, 1⟩, .f64) ∧
+    varDeclY Expected.C03.facts (some (.i .int)) (.bin .mul (.par (.bin .quo (.int 7) (.int 2))) (.int 2)) = .ok (.int 6, .i .int) ∧
+    Spec.declGo 0 (some (.i .int)) (.bin .mul (.par (.bin .quo (.int 7) (.int 2))) (.int 2)) = .ok (.int 6, .i .int) ∧
+    varDeclY Expected.C03.facts none (.bin .sub (.par (.bin .quo (.int 2) (.int 3))) (.par (.bin .or (.int 16) (.int 17)))) =
+      .ok (.int (-17), .i .int) ∧
+    constDeclY Expected.C03.facts none (.bin .add (.bin .quo (.int 7) (.int 2)) (.flt ⟨1, 2⟩)) = .ok [(.flt ⟨7, 2⟩, .f64)] ∧
+    Spec.declGo 0 none (.bin .add (.bin .quo (.int 7) (.int 2)) (.flt ⟨1, 2⟩)) = .ok (.flt ⟨7, 2⟩, .f64) ∧
+    constDeclY Expected.C03.facts none (.bin .add (.conv (.i .int8) (.int 1)) (.bin .quo (.int 7) (.int 2))) = .ok [(.int 4, .i .int8)] ∧
+    constDeclY Expected.C03.facts none (.bin .quo (.int 7) (.flt ⟨2, 1⟩)) = .ok [(.flt ⟨7, 2⟩, .f64)] := by decide
 
 /-- the same about the facts regenerated from the current source -/
 theorem evalY_eq_spec_generated (i : Nat) (e : CExpr) (hshape : intShape e = true) (hq : noRuneQuo i e = true)
@@ -158,7 +211,7 @@ theorem var_decl_correct (e : CExpr) (hshape : intShape e = true) (hq : noRuneQu
     varDeclY Expected.C03.facts none e = .ok (v, t) := by
   simp only [Spec.declGo] at hgo
   obtain ⟨gv, hgv, hasg⟩ := bind_eq_ok hgo
-  obtain ⟨n, hn, hinv⟩ := evalY_int_correct { iota := 0 } rfl rfl e hshape hq gv hgv
+  obtain ⟨n, hn, hinv⟩ := evalY_int_correct { iota := 0 } rfl e hshape hq gv hgv
   have ht : t = Spec.defaultGo gv.ty := by
     obtain ⟨k, hk⟩ := defaultGo_int gv n hinv
     simp only [Spec.assignGo] at hasg
@@ -393,21 +446,15 @@ theorem typed_decl_unchecked_witness :
     varDeclY Expected.C03.facts (some (.i .uint8)) (.bin .sub (.int 100) (.int 101)) = .ok (.int 255, .i .uint8) ∧
     Spec.declGo 0 (some (.i .uint8)) (.bin .sub (.int 100) (.int 101)) = .reject := by decide
 
-/-- the second walk of a constant declaration re-evaluates the integer quotient as a real quotient:
-    `const c = 7/2 + 0.5` is 4 (Go: 3.5) -/
-theorem const_second_walk_witness :
-    constDeclY Expected.C03.facts none (.bin .add (.bin .quo (.int 7) (.int 2)) (.flt ⟨1, 2⟩)) = .ok [(.flt ⟨4, 1⟩, .f64)] ∧
-    Spec.declGo 0 none (.bin .add (.bin .quo (.int 7) (.int 2)) (.flt ⟨1, 2⟩)) = .ok (.flt ⟨7, 2⟩, .f64) := by decide
-
 /-- `const c = float64(0.5 + 0.25)` is 0: in the second walk the operand of the conversion is a go/constant value
     with a typed `typ`, and the conversion case takes `Int64Val(ToInt(…))` -/
 theorem const_conv_float_zero_witness :
     constDeclY Expected.C03.facts none (.conv .f64 (.bin .add (.flt ⟨1, 2⟩) (.flt ⟨1, 4⟩))) = .ok [(.flt ⟨0, 1⟩, .f64)] ∧
     Spec.declGo 0 none (.conv .f64 (.bin .add (.flt ⟨1, 2⟩) (.flt ⟨1, 4⟩))) = .ok (.flt ⟨3, 4⟩, .f64) := by decide
 
-/-- `const c int = 3 * (1)` — `fixUntyped` indexes the empty `sc.types`: a Go panic escapes `Eval` -/
-theorem const_paren_crash_witness :
-    constDeclY Expected.C03.facts (some (.i .int)) (.bin .mul (.int 3) (.par (.int 1))) = .crash ∧
+/-- `const c int = 3 * (1)` (a Go panic in `fixUntyped` before 08f21a9) is 3 on both sides -/
+example :
+    constDeclY Expected.C03.facts (some (.i .int)) (.bin .mul (.int 3) (.par (.int 1))) = .ok [(.int 3, .i .int)] ∧
     Spec.declGo 0 (some (.i .int)) (.bin .mul (.int 3) (.par (.int 1))) = .ok (.int 3, .i .int) := by decide
 
 /-- `var c = 'a'` at package level has type int (Go: int32): gta's `nodeType` turns the literal into an Int constant -/
